@@ -9,7 +9,7 @@ sys.path.insert(0, str(V / "lib"))
 
 LEVEL = {
  "C01": ("model_checking", "TLC enumerates hand-encoded packages from the format model (Gen_Hdr: layout grid, raw entries with hostile fields, intro/lead/padding variants) for the real parser; every observation (assets, built/signed/cleared packages, seeded structure-aware mutants, generated cases) is validated by Trace_Pkg, which recomputes from the input bytes where the written bytes may differ (reserved intro bytes, signature padding) and demands re-parse/re-write fixpoint.", "3.C01"),
- "C02": ("model_checking", "verification is a state machine (Begin / Consult / Return) whose Return(ok) guard is the statement of C02; TLC explores it against an arbitrary implementation (MC) and replays the consultations logged by a recording implementation of the public Verifying trait for every generated signature-header shape x verdict pattern, plus real-key packages tampered bit-wise and by digest-consistent forgeries, and random life-cycle walks (sign / clear / re-parse / tamper) replayed through the composed Rpm state machine.", "3.C02"),
+ "C02": ("model_checking", "verification is a state machine (Begin / Consult / Return) whose Return(ok) guard is the statement of C02; TLC explores it against an arbitrary implementation (MC) and replays the consultations logged by a recording implementation of the public Verifying trait for every generated signature-header shape x verdict pattern, plus real-key packages tampered bit-wise and by digest-consistent forgeries, and random life-cycle walks (sign / failed sign / clear / re-parse / tamper with header, payload, the recorded header digest and the OpenPGP signature packet) replayed through the composed Rpm state machine.", "3.C02"),
  "C03": ("model_checking", "the digest decision (Allowed) is stated over the abstract state of the four recorded digests; MC shows a step-machine verifier refines it on the complete table; TLC generates the table, the harness materialises every row on a hand-encoded package and re-derives the state of bit-flipped real packages with its own decoder and hashing; Trace_C03 judges every outcome.", "3.C03"),
  "C10": ("model_checking", "SignHistory state machine model-checked for all histories up to length 5; TLC generates every history with expected observations; the harness walks them as a prefix tree with the four real keys and Trace_C10 replays every observed step through the state machine.", "3.C10"),
  "C04": ("model_checking", "the header reader is an explicit state machine (Parser) whose failure transitions are model-checked for reachability and in-bounds reads; TLC generates boundary-value products per transition (Gen_Hostile) which, with every truncation / single-byte mutation of real packages, structure-aware mutants and hostile cpio payloads, are run through every read-side operation in a child process under RLIMIT_AS, alarm() and a counting allocator; the trace specification has no action for panic / abort / timeout and bounds the allocation peak.", "3.C04"),
